@@ -21,7 +21,22 @@ Open Scope string_scope.
 Ltac by_check := apply check_sound; vm_compute; reflexivity.
 
 Definition allow_no_hook : list (string * eff) := [].
-Definition allow_no_write : list (string * eff) := [].
+(* check_and_merge_defaults(options, mandatory, default_options, ..) is handed the module-level _DEFAULT_OPTIONS of
+   the scheduler module; its only write into an object derived from its parameters is `result_dict[kd] = vd` for
+   keys kd MISSING from result_dict, where result_dict is either the dict passed by the caller (not module-level)
+   or the default's own nested dict (then every key kd is present: no write).  The entry names the callee, the
+   parameter and the mutating expression, so a different mutation of the defaults is not covered. *)
+Definition allow_default_imputation : list (string * eff) := [
+  ("syne_tune.optimizer.schedulers.fifo.FIFOScheduler.__init__/1 check_and_merge_defaults(default_options): result_dict[...] = ...", ModuleGlobalWrite);
+  ("syne_tune.optimizer.schedulers.hyperband.HyperbandScheduler.__init__/1 check_and_merge_defaults(default_options): result_dict[...] = ...", ModuleGlobalWrite);
+  ("syne_tune.optimizer.schedulers.pbt.PopulationBasedTraining.__init__/1 check_and_merge_defaults(default_options): result_dict[...] = ...", ModuleGlobalWrite);
+  ("syne_tune.optimizer.schedulers.synchronous.dehb.DifferentialEvolutionHyperbandScheduler._create_internal/1 check_and_merge_defaults(default_options): result_dict[...] = ...", ModuleGlobalWrite);
+  ("syne_tune.optimizer.schedulers.synchronous.hyperband.SynchronousHyperbandScheduler._create_internal/1 check_and_merge_defaults(default_options): result_dict[...] = ...", ModuleGlobalWrite);
+  ("syne_tune.optimizer.schedulers.synchronous.hyperband_impl.GeometricDifferentialEvolutionHyperbandScheduler.__init__/1 check_and_merge_defaults(default_options): result_dict[...] = ...", ModuleGlobalWrite);
+  ("syne_tune.optimizer.schedulers.synchronous.hyperband_impl.SynchronousGeometricHyperbandScheduler.__init__/1 check_and_merge_defaults(default_options): result_dict[...] = ...", ModuleGlobalWrite)
+].
+(* (name kept for the re-export in props/C16.v) the only reachable writes are the harmless default imputations *)
+Definition allow_no_write : list (string * eff) := allow_default_imputation.
 (* process-global block-name counters of the GP parameter blocks (names only; restored objects keep their names) *)
 Definition allow_gluon_counters : list (string * eff) := [
   ("syne_tune.optimizer.schedulers.searchers.bayesopt.gpautograd.gluon.NameManager.__enter__/2", ClassAttrWrite);
@@ -29,7 +44,7 @@ Definition allow_gluon_counters : list (string * eff) := [
   ("syne_tune.optimizer.schedulers.searchers.bayesopt.gpautograd.gluon._BlockScope.__enter__/1", ClassAttrWrite);
   ("syne_tune.optimizer.schedulers.searchers.bayesopt.gpautograd.gluon._BlockScope.__exit__/1", ClassAttrWrite);
   ("syne_tune.optimizer.schedulers.searchers.bayesopt.gpautograd.gluon._BlockScope.create/2", ClassAttrWrite)
-].
+] ++ allow_default_imputation.
 
 Theorem c16_pickle_identity_fifo_random :
   NoReachableEffect edges effs off_fifo_random roots_fifo_random pickle_hook allow_no_hook.
